@@ -910,6 +910,28 @@ func (env *Env) evalCall(x *ECall) (*Val, error) {
 				}
 			}
 			return nil, fmt.Errorf("unbox(x, type(T))")
+		case "asptr":
+			// asptr(r, type(*T)): view the reference r (e.g. the payload of an interface value holding a *T) as a *T
+			if len(x.Args) == 2 {
+				if tl, ok := x.Args[1].(*ETypeLit); ok {
+					gt, err := e.resolveGoType(tl.T, env.pkgPath, env.imports)
+					if err != nil {
+						return nil, err
+					}
+					if !isPointer(gt) {
+						return nil, fmt.Errorf("asptr() needs a pointer type, got %s", typeStr(gt))
+					}
+					v, err := env.eval(x.Args[0])
+					if err != nil {
+						return nil, err
+					}
+					if len(v.L) != 1 || v.L[0].S != "Int" {
+						return nil, fmt.Errorf("asptr() needs a reference")
+					}
+					return &Val{T: gt, L: []Sc{v.L[0]}}, nil
+				}
+			}
+			return nil, fmt.Errorf("asptr(r, type(*T))")
 		case "implements":
 			// implements(x, type(I)): the dynamic type of interface value x (or the type tag x) implements interface I
 			if len(x.Args) == 2 {
